@@ -33,7 +33,7 @@ FLUX_COLS = {'aperture_sum', 'aperture_sum_0', 'aperture_sum_1',
              'aperture_sum_err', 'segment_flux', 'segment_fluxerr',
              'kron_flux', 'kron_fluxerr', 'peak_value', 'flux_fit',
              'min_value', 'max_value', 'sum', 'sum_err', 'mean', 'median'}
-INT_REPS = {'int16', 'int32', 'int64', 'uint8', 'bigendian_i4'}
+INT_REPS = {'int16', 'int32', 'int64', 'uint8', 'uint16', 'bigendian_i4'}
 
 
 def _run(name, X):
@@ -46,7 +46,7 @@ def _run(name, X):
 def check_matrix(case, ctx):
     sc = dict(case['scene'])
     rep = case['rep']
-    sc['nonneg'] = rep == 'uint8'
+    sc['nonneg'] = rep in ('uint8', 'uint16')
     E = R.entries()
     ctx.event('rep_' + rep)
     ctx.mark(rep != 'f64')
@@ -136,7 +136,8 @@ def check_matrix(case, ctx):
 
 @st.composite
 def matrix_cases(draw):
-    return {'scene': draw(scenes()), 'rep': draw(st.sampled_from(R.REPS[1:]))}
+    return {'scene': draw(scenes()),
+            'rep': draw(st.sampled_from(R.REPS[1:] + ['uint16']))}
 
 
 def check_mixed_units(case, ctx):
